@@ -308,12 +308,12 @@ theorem mul_src {exp log : Array Nat} (hE : exp.size = 65536) (hL : log.size = 6
 
 /-- the `while j < s { skew[j + s] = skew[j] ^ temp[i]; j += step }` loop of the source against `skewInner` -/
 theorem whileSt_skewInner {step s t : Nat} (Inv : Nat → Array Nat → Prop)
-    {c : Nat × Array Nat → Bool} {b : Nat × Array Nat → Option (Nat × Array Nat)}
-    (hstep : 0 < step) (hc : ∀ st, c st = decide (st.1 < s))
-    (hb : ∀ j a, Inv j a → j < s → Ret (b (j, a))
-      (j + step, a.setIfInBounds (j + s) (Nat.xor (a.getD j 0) t)) (fun st => Inv st.1 st.2)) :
+    {c : Array Nat × Nat → Bool} {b : Array Nat × Nat → Option (Array Nat × Nat)}
+    (hstep : 0 < step) (hc : ∀ st, c st = decide (st.2 < s))
+    (hb : ∀ j a, Inv j a → j < s → Ret (b (a, j))
+      (a.setIfInBounds (j + s) (Nat.xor (a.getD j 0) t), j + step) (fun st => Inv st.2 st.1)) :
     ∀ (n F F' j : Nat) (a : Array Nat), s ≤ j + n * step → n < F → n ≤ F' → Inv j a →
-      ∃ j', whileSt F c b (j, a) = some (j', skewInner step s t F' j a) ∧ Inv j' (skewInner step s t F' j a)
+      ∃ j', whileSt F c b (a, j) = some (skewInner step s t F' j a, j') ∧ Inv j' (skewInner step s t F' j a)
   | 0, F, F', j, a, hn, hF, _, hI => by
     have hj : ¬ j < s := by omega
     refine ⟨j, ?_, ?_⟩
@@ -341,13 +341,13 @@ theorem whileSt_skewInner {step s t : Nat} (Inv : Nat → Array Nat → Prop)
       · simp only [skewInner, hj, if_false]; exact hI
 
 theorem Ret.whileSkew {τ : Type} {step s t : Nat} (Inv : Nat → Array Nat → Prop) {F F' : Nat}
-    {c : Nat × Array Nat → Bool} {b : Nat × Array Nat → Option (Nat × Array Nat)} {j : Nat} {a : Array Nat}
-    {k : Nat × Array Nat → Option τ} {v : τ} {Q : τ → Prop}
-    (hstep : 0 < step) (hF : s < F) (hF' : s ≤ F') (hc : ∀ st, c st = decide (st.1 < s)) (hI : Inv j a)
-    (hb : ∀ j a, Inv j a → j < s → Ret (b (j, a))
-      (j + step, a.setIfInBounds (j + s) (Nat.xor (a.getD j 0) t)) (fun st => Inv st.1 st.2))
-    (hk : ∀ j', Inv j' (skewInner step s t F' j a) → Ret (k (j', skewInner step s t F' j a)) v Q) :
-    Ret ((whileSt F c b (j, a)).bind k) v Q := by
+    {c : Array Nat × Nat → Bool} {b : Array Nat × Nat → Option (Array Nat × Nat)} {j : Nat} {a : Array Nat}
+    {k : Array Nat × Nat → Option τ} {v : τ} {Q : τ → Prop}
+    (hstep : 0 < step) (hF : s < F) (hF' : s ≤ F') (hc : ∀ st, c st = decide (st.2 < s)) (hI : Inv j a)
+    (hb : ∀ j a, Inv j a → j < s → Ret (b (a, j))
+      (a.setIfInBounds (j + s) (Nat.xor (a.getD j 0) t), j + step) (fun st => Inv st.2 st.1))
+    (hk : ∀ j', Inv j' (skewInner step s t F' j a) → Ret (k (skewInner step s t F' j a, j')) v Q) :
+    Ret ((whileSt F c b (a, j)).bind k) v Q := by
   obtain ⟨j', e1, e2⟩ := whileSt_skewInner Inv hstep hc hb s F F' j a
     (by have := Nat.le_mul_of_pos_right s hstep; omega) hF hF' hI
   rw [e1, Option.bind_some]; exact hk j' e2
